@@ -485,7 +485,7 @@ def find_block(out):
     m = re.search(rb"(?m)^(?:\x1b\[1m)?#   Command +Category +Score", out)
     if m:
         cands.append((m.start(), "table"))
-    m = re.search(rb"(?m)^\[\n", out)
+    m = re.search(rb"(?m)^\[", out)  # a line that opens an array, however the encoder indents
     if m:
         cands.append((m.start(), "json"))
     if not cands:
@@ -838,10 +838,21 @@ def evaluate(ctx, runs, colors, use_fuzzy=True):
                 tag("answer-fills-limit")
             if len(set((docs[h["id"]].command, h["score"]) for h in answer)) < len(answer):
                 tag("ties-in-answer")
+            pairs_all = [(docs[h["id"]].command[:20] if want_fmt == "table" else docs[h["id"]].command,
+                          b"" if want_fmt == "table" else docs[h["id"]].description) for h in answer]
             if fmt_obs is None:
-                hit("cli-output-differs-from-engine", "no result block on stdout; expected %d result(s) via %s" % (len(answer), path), expected=[docs[h["id"]].command.decode("utf-8", "replace") for h in answer])
+                if want_fmt != "json" and in_rank_order(r.out, pairs_all):
+                    # the results are on stdout, in rank order, in a layout whose first line the block finder does not know
+                    layout_diffs.append("%s: no block in a known layout on stdout, but the engine's results are printed in rank order" % what[:200])
+                    printed_ids = [h["id"] for h in answer]
+                else:
+                    hit("cli-output-differs-from-engine", "no result block on stdout; expected %d result(s) via %s" % (len(answer), path), expected=[docs[h["id"]].command.decode("utf-8", "replace") for h in answer])
             elif fmt_obs != want_fmt:
-                hit("cli-output-differs-from-engine", "result block has format %s, flags ask for %s" % (fmt_obs, want_fmt))
+                if want_fmt != "json" and fmt_obs != "json" and in_rank_order(r.out[start:], pairs_all):
+                    layout_diffs.append("%s: the block finder reads the block as %s (flags ask for %s); the engine's results are printed in rank order" % (what[:200], fmt_obs, want_fmt))
+                    printed_ids = [h["id"] for h in answer]
+                else:
+                    hit("cli-output-differs-from-engine", "result block has format %s, flags ask for %s" % (fmt_obs, want_fmt))
             elif fmt_obs == "json":
                 # judged a second time, after the loop, by Go's encoding/json (tool c17jsonparse)
                 json_blocks.append((r, block, [[tok(x) for x in [docs[h["id"]].command, docs[h["id"]].description, docs[h["id"]].niche] +
